@@ -193,6 +193,35 @@ def rule_removal_order(ctx: Ctx) -> None:
 # --------------------------------------------------------------------------- C16 relabel form
 
 
+def rule_relabel_map_self(ctx: Ctx) -> None:
+    """relabel.map-self: get_relabel_map's shortcut fires when the two adjacency matrices, each taken in its graph's own node order,
+    are equal; the isomorphism this establishes pairs the nodes *by position* — dict(zip(g1.nodes(), g2.nodes())) — not by label."""
+    repo = ctx.repo
+    m = repo.module(RELABEL)
+    fn = repo.anchor(RELABEL, "get_relabel_map")
+    ctx.touch(m, fn)
+    g1, g2 = func_params(fn)[:2]
+    guards = [i for i in ast.walk(fn) if isinstance(i, ast.If) and any(isinstance(c, ast.Call) and call_attr(c) in ("array_equal", "array_equiv", "allclose")
+                                                                        for c in ast.walk(i.test))]
+    if not guards:
+        ctx.ok_abstract("relabel.map-self", "get_relabel_map has no equal-matrices shortcut (always matches with GraphMatcher)")
+        return
+    for g in guards:
+        rets = [r for r in ast.walk(g) if isinstance(r, ast.Return) and r.value is not None and any(r is x for b in g.body for x in ast.walk(b))]
+        for r in rets:
+            zips = [c for c in ast.walk(r.value) if isinstance(c, ast.Call) and call_name(c) == "zip" and len(c.args) == 2]
+            ok = any(norm(z.args[0]) in (f"{g1}.nodes()", f"{g1}.nodes", f"list({g1}.nodes())", g1, f"list({g1})")
+                     and norm(z.args[1]) in (f"{g2}.nodes()", f"{g2}.nodes", f"list({g2}.nodes())", g2, f"list({g2})") for z in zips)
+            if ok:
+                ctx.ok("relabel.map-self", m, r, what="equal matrices: nodes paired by position")
+            else:
+                ctx.fail("relabel.map-self", m, r,
+                         f"get_relabel_map returns `{short(r.value, 70)}` when the two position-ordered adjacency matrices are equal: that equality "
+                         f"pairs the i-th node of {g1} with the i-th node of {g2}; any other map (each node to itself, say) is not an isomorphism "
+                         f"for graphs whose node order differs from their label order", func="get_relabel_map",
+                         construct="get_relabel_map: shortcut map is not the position pairing")
+
+
 def rule_relabel_form(ctx: Ctx) -> None:
     """relabel(A, p) = P^T A P with P[i, p(i)] = 1, so that new[p(u), p(v)] = A[u, v]."""
     repo = ctx.repo
